@@ -90,9 +90,13 @@ def set_recorder(rec):
 def _fname(obj):
     """file name of the HDF5 file an object id / high-level object lives in"""
     import h5py
-    oid = getattr(obj, "id", None)
-    if oid is None:
-        oid = getattr(obj, "_id", obj)
+    if isinstance(obj, h5py.h5i.ObjectID if hasattr(h5py.h5i, "ObjectID")
+                  else ()) or type(obj).__module__.startswith("h5py.h5"):
+        oid = obj                       # low-level identifier (GroupID, ...)
+    else:
+        oid = getattr(obj, "id", None)  # high-level Group/Dataset/File
+        if oid is None or isinstance(oid, int):
+            oid = getattr(obj, "_id", obj)  # AttributeManager
     name = h5py.h5f.get_name(oid)
     if isinstance(name, bytes):
         name = name.decode("utf-8", "surrogateescape")
